@@ -1,6 +1,6 @@
 import CTV.Gen.ConfigBodies
 /-!
-Reference copy `Spec.validateLogConfigChecks` of the statement list regenerated into `Gen.validateLogConfigChecks` (taken at the pinned
+Reference copies (`Spec.setUpLogInfoBody`, `Spec.newChainStorageBody` at the end likewise) — first `Spec.validateLogConfigChecks` of the statement list regenerated into `Gen.validateLogConfigChecks` (taken at the pinned
 commit), and the proof that what is regenerated on this run rejects exactly the same inputs: `Gen.validateLogConfigChecks_eq_spec`.
 The tie theorem of `Props/C15Tie.lean` is proved against the copy, so a `ValidateLogConfig` rewritten without change of behaviour (tests
 moved into helpers, a switch turned into `if`s and the other way round, a statement split in two) only has to get through the generic
@@ -116,6 +116,126 @@ def validateLogConfigChecks (logId_ : Int) (pubSet pubBad isMirror frozenSet pri
       else
       true)]
 
+/-- pinned copy of the regenerated whole body of `setUpLogInfo` (with `newLogInfo`'s argument followed to the service built) -/
+def setUpLogInfoBody (isMirror : Bool) (nRoots : Int) (rootsFail signerFails pubSet pubEcdsa pubEd25519 pubRsa pubConsistent oidsFail storageFails storageNil cacheFails : Bool) : Nat × Bool :=
+  if ((!isMirror) && (decide (nRoots = (0 : Int)))) then
+    ((0 : Nat), true)
+  else
+  if rootsFail then
+    ((0 : Nat), true)
+  else
+  let signer_ := (0 : Int)
+  if (!isMirror) then
+    let err_ := (0 : Int)
+    if signerFails then
+      ((0 : Nat), true)
+    else
+    if pubSet then
+      if pubEcdsa then
+        if (!pubConsistent) then
+          ((0 : Nat), true)
+        else
+        let err_ := (0 : Int)
+        if oidsFail then
+          ((0 : Nat), true)
+        else
+        if storageFails then
+          ((0 : Nat), true)
+        else
+        if storageNil then
+          ((1 : Nat), false)
+        else
+        if cacheFails then
+          ((0 : Nat), true)
+        else
+        ((2 : Nat), false)
+      else
+      if pubEd25519 then
+        if (!pubConsistent) then
+          ((0 : Nat), true)
+        else
+        let err_ := (0 : Int)
+        if oidsFail then
+          ((0 : Nat), true)
+        else
+        if storageFails then
+          ((0 : Nat), true)
+        else
+        if storageNil then
+          ((1 : Nat), false)
+        else
+        if cacheFails then
+          ((0 : Nat), true)
+        else
+        ((2 : Nat), false)
+      else
+      if pubRsa then
+        if (!pubConsistent) then
+          ((0 : Nat), true)
+        else
+        let err_ := (0 : Int)
+        if oidsFail then
+          ((0 : Nat), true)
+        else
+        if storageFails then
+          ((0 : Nat), true)
+        else
+        if storageNil then
+          ((1 : Nat), false)
+        else
+        if cacheFails then
+          ((0 : Nat), true)
+        else
+        ((2 : Nat), false)
+      else
+      ((0 : Nat), true)
+    else
+    let err_ := (0 : Int)
+    if oidsFail then
+      ((0 : Nat), true)
+    else
+    if storageFails then
+      ((0 : Nat), true)
+    else
+    if storageNil then
+      ((1 : Nat), false)
+    else
+    if cacheFails then
+      ((0 : Nat), true)
+    else
+    ((2 : Nat), false)
+  else
+  let err_ := (0 : Int)
+  if oidsFail then
+    ((0 : Nat), true)
+  else
+  if storageFails then
+    ((0 : Nat), true)
+  else
+  if storageNil then
+    ((1 : Nat), false)
+  else
+  if cacheFails then
+    ((0 : Nat), true)
+  else
+  ((2 : Nat), false)
+
+/-- pinned copy of the regenerated whole body of `storage.NewIssuanceChainStorage` -/
+def newChainStorageBody (backend_ : Int) (mysqlPrefix pgPrefix : Bool) : Nat × Bool :=
+  if (decide (backend_ = (0 : Int))) then
+    ((0 : Nat), false)
+  else
+  if (decide (backend_ = (1 : Int))) then
+    if mysqlPrefix then
+      ((1 : Nat), false)
+    else
+    if pgPrefix then
+      ((1 : Nat), false)
+    else
+    ((0 : Nat), true)
+  else
+  ((0 : Nat), true)
+
 end Spec
 
 namespace Gen
@@ -129,11 +249,30 @@ macro "same_body" a:ident b:ident : tactic =>
          | rfl
          | (apply Bool.eq_iff_iff.mpr
             constructor <;> intro h <;> simp only [Bool.and_eq_true] at h ⊢ <;> (repeat' constructor) <;>
-              first | grind | (simp_all <;> omega)))))
+              first | grind | (simp_all <;> omega) | grind (splits := 40) | (simp_all <;> (repeat' split at h) <;> simp_all <;> omega)))))
 
 theorem validateLogConfigChecks_eq_spec (logId_ : Int) (pubSet pubBad isMirror frozenSet privSet privBad rejectExpired rejectUnexpired ekuBad startSet startBad limitSet limitBad : Bool) (start_ limit_ max_ exp_ : Int) (verifierFails shapeFails sigFails : Bool) (storage_ connLen nParts : Int) (scheme_ : String) (dsnBad pgBad : Bool) :
     (Gen.validateLogConfigChecks logId_ pubSet pubBad isMirror frozenSet privSet privBad rejectExpired rejectUnexpired ekuBad startSet startBad limitSet limitBad start_ limit_ max_ exp_ verifierFails shapeFails sigFails storage_ connLen nParts scheme_ dsnBad pgBad).all id =
     (Spec.validateLogConfigChecks logId_ pubSet pubBad isMirror frozenSet privSet privBad rejectExpired rejectUnexpired ekuBad startSet startBad limitSet limitBad start_ limit_ max_ exp_ verifierFails shapeFails sigFails storage_ connLen nParts scheme_ dsnBad pgBad).all id := by
   same_body Gen.validateLogConfigChecks Spec.validateLogConfigChecks
+
+/-- whatever shape the regenerated `setUpLogInfo` body has: the same outcome on every input. The only non-Boolean input is tested as
+`nRoots = 0`; that test becomes one more Boolean and the equation is decided over all of them (fallback: split every `if`). -/
+theorem setUpLogInfoBody_eq_spec (isMirror : Bool) (nRoots : Int) (rootsFail signerFails pubSet pubEcdsa pubEd25519 pubRsa pubConsistent oidsFail storageFails storageNil cacheFails : Bool) :
+    Gen.setUpLogInfoBody isMirror nRoots rootsFail signerFails pubSet pubEcdsa pubEd25519 pubRsa pubConsistent oidsFail storageFails storageNil cacheFails =
+    Spec.setUpLogInfoBody isMirror nRoots rootsFail signerFails pubSet pubEcdsa pubEd25519 pubRsa pubConsistent oidsFail storageFails storageNil cacheFails := by
+  first
+    | (unfold Gen.setUpLogInfoBody Spec.setUpLogInfoBody
+       generalize decide (nRoots = (0 : Int)) = z
+       revert isMirror rootsFail signerFails pubSet pubEcdsa pubEd25519 pubRsa pubConsistent oidsFail storageFails storageNil cacheFails z
+       decide)
+    | (unfold Gen.setUpLogInfoBody Spec.setUpLogInfoBody
+       by_cases hz : nRoots = 0 <;> simp only [hz, decide_true, decide_false] <;>
+       (revert isMirror rootsFail signerFails pubSet pubEcdsa pubEd25519 pubRsa pubConsistent oidsFail storageFails storageNil cacheFails; decide))
+
+theorem newChainStorageBody_eq_spec (backend_ : Int) (mysqlPrefix pgPrefix : Bool) :
+    Gen.newChainStorageBody backend_ mysqlPrefix pgPrefix = Spec.newChainStorageBody backend_ mysqlPrefix pgPrefix := by
+  unfold Gen.newChainStorageBody Spec.newChainStorageBody
+  first | rfl | (cases mysqlPrefix <;> cases pgPrefix <;> (first | rfl | grind | ((repeat' split) <;> simp_all <;> omega)))
 
 end Gen
